@@ -446,6 +446,21 @@ class C15(World):
             sim.log("config " + idn.describe())
         for fi in self.fis:
             sim.log(f"config server {fi.name} profile-url={fi.prof_url} service-url={fi.svc_url} form={fi.form}")
+        if n_fi >= 2 and ch.flag("cfg.legacy_files", 0.2):
+            # the data directory is not always virgin: files written by an earlier version of the library under
+            # its old naming scheme (<org>-<fid>.profrs), each holding a valid profile of *some* institution
+            for idn in self.idents:
+                other = [f for f in self.fis if f is not idn.fi]
+                if not other or not ch.flag("cfg.legacy_files.this", 0.7):
+                    continue
+                src = other[ch.pick("cfg.legacy_files.from", len(other))]
+                body = refofx.render_file(("OFX", [peers.sonrs_doc(peers.BASE_DATE), ("PROFMSGSRSV1", [("PROFTRNRS", [
+                    ("TRNUID", "0"), peers.status_doc(0),
+                    peers.profrs_doc(src.current, src.prof_url, src.trailing, src.msgsets, src.closing)])])]),
+                    102, src.form, False)
+                self.fs.write_bytes(f"{DATA_DIR}/ofxtools/fiprofiles/{idn.org}-{idn.fid}.profrs", body)
+                sim.log(f"legacy cache file {idn.org}-{idn.fid}.profrs holds profile {src.current.marker}")
+                sim.count("probe.legacy_cache_files_planted")
         self.probe_all("initial", charge=False)
         if variant == 0:
             self.run_histories()
